@@ -8,7 +8,8 @@ from ..common.env import HarnessError
 from . import c01
 
 ID = "C02"
-RULE = ("case = (continuum small enough for an exact oracle: n>=3 with prod(k_i+1) <= 1300, e.g. 3x9 / 4x5 / 5x3, or 2 annotators up to 2x60; "
+RULE = ("'history': the same continuum and dissimilarity objects are re-aligned after in-place edits (replace/add/remove a unit). Otherwise: "
+        "case = (continuum small enough for an exact oracle: n>=3 with prod(k_i+1) <= 1300, e.g. 3x9 / 4x5 / 5x3, or 2 annotators up to 2x60; "
         "dissimilarity spec with alpha/beta incl. 0 and delta_empty != 1; back-end cbc|glpk), Hypothesis-generated, plus the C01 exhaustive grid. "
         "Oracle: minimum over ALL partitions using the UNPRUNED candidate set and float64 reference formulas "
         "(bitmask DP <= 9 units, Hungarian for 2 annotators, HiGHS MILP with upper and dual bound otherwise); the library value must lie in "
@@ -22,16 +23,29 @@ ASSUMPTIONS = [
 
 
 def check(case, cover=False):
-    cont, spec, mode = case["continuum"], case["dissim"], case.get("backend", "cbc")
-    per = oracle.per_annotator(cont)
+    cont, spec = case["continuum"], case["dissim"]
     c = oracle.build_continuum(cont)
     d = oracle.build_dissim(spec)
+    info = evaluate(case, c, d, cont, cover)
+    # history: the SAME continuum / dissimilarity objects re-used after in-place edits (stale caches, leftover state)
+    for edit in case.get("edits", []):
+        cont = oracle.apply_edit(c, cont, edit, gen.labels_for(spec))
+        info2 = evaluate(case, c, d, cont, cover, label="after-in-place-edit:")
+        info["classes"] = sorted(set(info["classes"]) | {"edited-in-place"})
+        info["nontrivial"] = info["nontrivial"] or info2["nontrivial"]
+        info["lib"], info["slots"], info["final_cont"] = info2["lib"], info2["slots"], cont
+    return info
+
+
+def evaluate(case, c, d, cont, cover=False, label=""):
+    spec, mode = case["dissim"], case.get("backend", "cbc")
+    per = oracle.per_annotator(cont)
     with backends.backend(mode) as used:
         if cover:
             al = lib_call("soft-alignment", c.get_best_soft_alignment, d)
         else:
             al = lib_call("best-alignment", c.get_best_alignment, d)
-    label = "soft" if cover else "best"
+    label = label + ("soft" if cover else "best")
     slots = preds.check_cover(al, per, label) if cover else preds.check_partition(al, per, label)
     preds.check_reported_disorders(al, slots, spec, per, label)
     lst = [per[a] for a in sorted(per)]
@@ -91,8 +105,18 @@ def cases(draw, pairs=False):
     return cs
 
 
+@st.composite
+def history_cases(draw):
+    from . import c07
+    cs = draw(cases())
+    cs["edits"] = draw(st.lists(c07.EDIT, min_size=1, max_size=3))
+    return cs
+
+
 def subchecks(tier):
     subs = [
+        Sub(name="history", check=check, strategy=history_cases(),
+            examples={"quick": 60, "thorough": 800}, shards={"quick": 8, "thorough": 16}),
         Sub(name="random", check=check, strategy=cases(),
             examples={"quick": 300, "thorough": 2500}, shards={"quick": 8, "thorough": 16}),
         Sub(name="pairs", check=check, strategy=cases(pairs=True),
